@@ -452,6 +452,64 @@ func ExecC(c CCase) (res core.Result) {
 		res.Viol = core.Violate("C16/wedged", "handler calls did not return within 90 s under concurrent load")
 		return
 	}
+	// ---- the last two updates of the lease file arrive back to back (a large file, then the
+	// final one): their reloads may overlap, but in every serial order of datagrams and refresh
+	// events the later content is the one in force afterwards
+	if refresh && c.Kind != "v6" && c.Static > 0 && cap4 != nil {
+		var sb strings.Builder
+		sb.WriteString(leaseText(c.Static, false, true))
+		for i := 0; i < 12000; i++ {
+			fmt.Fprintf(&sb, "02:ff:00:00:%02x:%02x 10.77.%d.%d\n", byte(i>>8), byte(i), byte(i>>8), byte(i))
+		}
+		big := sb.String()
+		// the final content lists one more client, so that it can be told from the content
+		// that happened to be in force before
+		fin := "02:ff:ff:ff:ff:01 10.10.10.249\n" + leaseText(c.Static, false, false)
+		fin += "#" + strings.Repeat("q", len(big)-len(fin)-2) + "\n"
+		probe := func(i int) net.IP {
+			mac := staticMAC(i)
+			if i < 0 {
+				mac = []byte{0x02, 0xff, 0xff, 0xff, 0xff, 0x01}
+			}
+			p := gen.Pkt4{Op: 1, HType: 1, HLen: 6, Xid: xids.Add(1), CHAddr: hex.EncodeToString(mac), GIAddr: "10.10.10.254"}
+			p.Opts = []gen.Opt4{{Code: 53, Hex: "01"}}
+			sent, _ := feed4(cap4, p.Bytes(), &ipv4.ControlMessage{IfIndex: recv4}, &net.UDPAddr{IP: net.IPv4(10, 10, 10, 254), Port: 67})
+			if len(sent) != 1 {
+				return nil
+			}
+			rep, err := dhcpv4.FromBytes(sent[0].Payload)
+			if err != nil {
+				return nil
+			}
+			return rep.YourIPAddr
+		}
+		writeAt(f4, big)
+		writeAt(f4, fin)
+		want := func(i int) net.IP {
+			if i < 0 {
+				return net.IPv4(10, 10, 10, 249)
+			}
+			return net.IPv4(10, 10, 10, byte(50+i))
+		}
+		end := time.Now().Add(15 * time.Second)
+		for !want(-1).Equal(probe(-1)) {
+			if time.Now().After(end) {
+				res.Viol = core.Violate("C16/last-file-content-never-in-force", "15 s after the last rewrite of the lease file the client it adds is served %v, the file says %v", probe(-1), want(-1))
+				return
+			}
+			time.Sleep(200 * time.Microsecond)
+		}
+		hold := time.Now().Add(150 * time.Millisecond)
+		for time.Now().Before(hold) {
+			for i := -1; i < c.Static; i++ {
+				if got := probe(i); !want(i).Equal(got) {
+					res.Viol = core.Violate("C16/older-file-content-comes-back", "after the last content of the lease file was in force, static client %d is served %v again (the file says %v): a reload of an older content was published over a newer one", i, got, want(i))
+					return
+				}
+			}
+			time.Sleep(time.Millisecond)
+		}
+	}
 	// ---- serial-equivalence invariants
 	addrOf := map[string]int{}     // dynamic address -> client
 	clientAddr := map[int]string{} // dynamic client -> address
